@@ -246,3 +246,36 @@ Theorem gchunks_of_refines bs stream hf cs : gchunks_of bs stream = Some (hf, cs
 Proof.
   intros E. destruct (gpump_all_refines _ _ _ _ _ _ _ (CInv_init stream) E) as (_ & _ & O & M). split; [exact O|exact M].
 Qed.
+
+(* ---- pump never panics for block sizes below 2^62 ---- *)
+From WP Require Import iovec.GeoNoPanic.
+Open Scope nat_scope.
+
+Lemma as_read_n_no_panic h k got count : (nlen got <= count)%N -> (count <= BIG)%N -> exists r, as_read_n h k got count = Some r.
+Proof.
+  intros Hg Hc. unfold as_read_n, arena_read_n.
+  destruct (count =? 0)%N; [eauto|].
+  destruct (count <? nlen got)%N eqn:E; [apply N.ltb_lt in E; lia|].
+  destruct (alloc_no_panic h k count Hc) as (h' & k' & ->). eauto.
+Qed.
+
+Lemma gfill_no_panic : forall fuel bs h k s, (N.of_nat bs + 2 <= BIG)%N -> exists r, gfill fuel bs h k s = Some r.
+Proof.
+  induction fuel as [|fuel IH]; intros bs h k s Hb; cbn [gfill]; [eauto|].
+  destruct (2 <=? length (buf_bytes h s)) eqn:E2; [eauto|]. apply Nat.leb_gt in E2.
+  destruct (refill (length (buf_bytes h s) + Nat.max bs 1) (buf_bytes h s) (grest s)) as [got r'] eqn:R.
+  assert (Hgot : length got <= length (buf_bytes h s) + Nat.max bs 1).
+  { unfold refill in R. inversion R. rewrite firstn_length. lia. }
+  destruct (as_read_n_no_panic h k got (N.of_nat (length (buf_bytes h s) + Nat.max bs 1))) as ([[h1 k1] a] & ->).
+  - unfold nlen, byte in *. lia.
+  - unfold BIG, byte in *. destruct (Nat.max_spec bs 1) as [[_ ->]|[_ ->]]; lia.
+  - destruct (N.to_nat (as_len a) =? length (buf_bytes h s)); [destruct (length (buf_bytes h s) =? 0); eauto|].
+    apply IH. exact Hb.
+Qed.
+
+Theorem gpump_no_panic bs h k s : (N.of_nat bs + 2 <= BIG)%N -> exists r, gpump bs h k s = Some r.
+Proof.
+  intros Hb. unfold gpump. destruct (gfill_no_panic 3 bs h k s Hb) as ([[h1 k1] [s1|[c s1]]] & ->); [|eauto].
+  destruct (starts_stuff (buf_bytes h1 s1)); [eauto|].
+  destruct (as_split_at _ _). eauto.
+Qed.
